@@ -102,7 +102,9 @@ class VariantPeptidePool():
             # Filter by miscleavages
             if any(x is not None for x in miscleavage_range):
                 exception = 'trypsin_exception' if enzyme == 'trypsin' else None
-                misc = peptide.find_all_enzymatic_cleave_sites(enzyme, exception)
+                misc = [x for x in
+                    peptide.find_all_enzymatic_cleave_sites(enzyme, exception)
+                    if 0 < x < len(peptide.seq)]
                 if miscleavage_range[0] is not None and len(misc) < miscleavage_range[0]:
                     continue
                 if miscleavage_range[1] is not None and len(misc) > miscleavage_range[1]:
